@@ -1,0 +1,51 @@
+//! Observation hooks for external verification harnesses.
+//!
+//! Only compiled with `--cfg sas_lexer_verif`. Nothing here changes what
+//! the lexer emits; the only control-flow effect is the iteration budget
+//! in `Lexer::lex`, which can only trigger after `256 + 32 * source_len`
+//! iterations of the main loop.
+
+use std::cell::Cell;
+
+/// Lexer configuration at the moment the main loop has left
+/// (cursor exhausted or budget exceeded), before the mode stack is unwound.
+#[derive(Debug, Clone, Default, PartialEq, Eq, Hash)]
+pub struct EndConfig {
+    /// `Debug` rendering of every mode on the stack, bottom first
+    pub mode_stack: Vec<String>,
+    pub macro_nesting_level: u32,
+    pub pending_stat: Vec<bool>,
+    pub checkpoint_live: bool,
+}
+
+/// Counters and the end configuration of one lexer run.
+#[derive(Debug, Clone, Default, PartialEq, Eq)]
+pub struct VerifInfo {
+    /// Number of main loop iterations
+    pub iterations: u64,
+    /// Set when the main loop was left because of the iteration budget
+    pub budget_exceeded: bool,
+    pub end: EndConfig,
+    pub checkpoints: u32,
+    pub rollbacks: u32,
+    /// Rollbacks that happened after an error was pushed since the checkpoint
+    pub rollbacks_with_new_errors: u32,
+    pub max_mode_stack_depth: u32,
+}
+
+thread_local! {
+    static ITER_HOOK: Cell<Option<fn()>> = const { Cell::new(None) };
+}
+
+/// Install (or remove) a function that is called once per main loop
+/// iteration of every lexer running on the current thread.
+pub fn set_iter_hook(hook: Option<fn()>) {
+    ITER_HOOK.with(|h| h.set(hook));
+}
+
+#[inline]
+pub(crate) fn call_iter_hook() {
+    if let Some(hook) = ITER_HOOK.with(Cell::get) {
+        hook();
+    }
+}
